@@ -58,10 +58,12 @@ theorem C09_tie_run_swallows :
 def slashRelevant : List String :=
   ["CheckSlashParameter", "CacheContext", "SlashAssets", "writeFunc", "UpdateOperatorSlashInfo"]
 
-/-- Slash: parameter check, cache context around SlashAssets, **writeFunc, then** UpdateOperatorSlashInfo —
-the first four steps of the model's `slash`, followed by the inlined slash-info checks -/
+/-- Slash: parameter check, cache context opened, SlashAssets, UpdateOperatorSlashInfo, **then writeFunc** —
+the first three steps of the model's `slash`, the inlined slash-info steps, and `closeC` last -/
 theorem C09_tie_slash_order :
-    callSeqSlash.filter (· ∈ slashRelevant) = (slash.take 4).map stepName ++ ["UpdateOperatorSlashInfo"] := by decide
+    callSeqSlash.filter (· ∈ slashRelevant) =
+      (slash.take 3).map stepName ++ ["UpdateOperatorSlashInfo", "writeFunc"] ∧
+    slash.getLast? = some .closeC ∧ (slash.drop 3).dropLast.all (fun st => st != .openC && st != .closeC) = true := by decide
 
 /-- UpdateOperatorSlashInfo: all its checks precede its single write -/
 theorem C09_tie_slashInfo_order :
